@@ -41,6 +41,8 @@ type Solver struct {
 	fbStats   struct{ Calls, ByCvc5Int, ByZ3 int }
 	tmpDir    string
 	recycled  int
+	revived   int
+	lastExtra []*Term
 }
 
 func solverArgv(kind string, timeoutMs int) []string {
@@ -201,7 +203,7 @@ func (s *Solver) readLine() string {
 	line, err := s.out.ReadString('\n')
 	if err != nil {
 		s.dead = true
-		return "(error \"solver died: " + err.Error() + "\")"
+		return ""
 	}
 	return strings.TrimSpace(line)
 }
@@ -220,6 +222,10 @@ func (s *Solver) Check(extra ...*Term) string {
 	start := time.Now()
 	s.flush()
 	res := s.readResult()
+	s.lastExtra = extra
+	if s.dead && s.revive() {
+		res = s.reissue()
+	}
 	if res != "sat" && res != "unsat" && s.fbTimeout > 0 && !s.dead {
 		res = s.fallback(extra)
 	}
@@ -239,6 +245,56 @@ func (s *Solver) Check(extra ...*Term) string {
 	}
 	s.lastSat = res == "sat"
 	return res
+}
+
+// revive replaces a solver process that died (typically killed by the kernel
+// under memory pressure) and replays the current path's assertions into the
+// new one.
+func (s *Solver) revive() bool {
+	if s.revived >= 8 {
+		return false
+	}
+	s.revived++
+	fmt.Fprintln(os.Stderr, "solver: process died; restarting it and replaying the path")
+	s.in.Close()
+	s.cmd.Process.Kill()
+	s.cmd.Wait()
+	s.buf.Reset()
+	if err := s.spawn(); err != nil {
+		return false
+	}
+	s.dead = false
+	s.raw("(push 1)\n")
+	s.raw(s.pathText.String())
+	return true
+}
+
+// reviveIdle replaces a dead solver process between paths.
+func (s *Solver) reviveIdle() bool {
+	if s.revived >= 8 {
+		return false
+	}
+	s.revived++
+	s.in.Close()
+	s.cmd.Process.Kill()
+	s.cmd.Wait()
+	s.buf.Reset()
+	if err := s.spawn(); err != nil {
+		return false
+	}
+	s.dead = false
+	return true
+}
+
+// reissue repeats the last Check on a revived process.
+func (s *Solver) reissue() string {
+	s.raw("(push 1)\n")
+	for _, t := range s.lastExtra {
+		s.raw("(assert " + t.ref() + ")\n")
+	}
+	s.raw("(check-sat)\n")
+	s.flush()
+	return s.readResult()
 }
 
 // PopCheck closes the scope opened by Check (call after optional GetModel).
@@ -301,10 +357,23 @@ func (s *Solver) GetModel(vars []*Term) map[string]uint64 {
 	depth := 0
 	started := false
 	inBar := false
+	retried := false
 	for {
 		line, err := s.out.ReadString('\n')
 		if err != nil {
 			s.dead = true
+			if !retried && s.revive() && s.reissue() == "sat" {
+				retried = true
+				sb.Reset()
+				depth, started, inBar = 0, false, false
+				s.raw("(get-value (")
+				for _, v := range vars {
+					s.raw(quoteName(v.name) + " ")
+				}
+				s.raw("))\n")
+				s.flush()
+				continue
+			}
 			return res
 		}
 		if !started && strings.HasPrefix(strings.TrimSpace(line), "(error") {
